@@ -357,6 +357,12 @@ def run_property(P, pid, tier, seed, replay):
     env_probe = {"names": None, "reruns": 0}
     if okh and runs and not replay:
         sample = lines[:400] + lines[len(lines) // 2:len(lines) // 2 + 200] + lines[-200:]
+        per_cmd = collections.Counter()
+        for l in lines:                                # .. and some lines of every command there is (e.g. the few that use the real clock)
+            k = l.split(" ", 1)[0]
+            if per_cmd[k] < 25 and len(l) < 20000:
+                per_cmd[k] += 1
+                sample.append(l)
         pref = "D " if getattr(P, "RELEASE", False) else ""
         names = vlib.env_names_consulted(exe_dbg, [pref + l for l in sample])
         env_probe["names"] = names
